@@ -5,8 +5,8 @@ TECH = "contract-based deductive verification: WP-style VCs generated over go/ss
 CLAIMS = {
  'C01': dict(
   text="Deductive proof (unbounded) of representation-invariant preservation and FIFO position/count postconditions for the LinkBuffer methods under contract; every obligation is generated from the go/ssa of /repo and discharged by an SMT solver.",
-  note="Proved: wf preservation, exact consumed/flushed/pending stream positions and both counters, zero-copy result regions, failing reads change nothing, Close, readCopy, GetBytes, Bytes, Until, for all sizes/capacities/chain shapes. Assumed: allocator contracts (malloc/free/dirtmake), sync.Pool freshness, int/int64 mathematical, sequential use per buffer.",
-  nd=["byte contents of copying reads beyond 'copied from the region at the stream position' (memory is modelled per region, not per history)", "Append/WriteDirect/WriteBuffer (not under contract)", "concurrent reader/poller use of one buffer (sequential contracts; the connection layer's split discipline is assumed)"]),
+  note="Proved: wf preservation, exact consumed/flushed/pending stream positions and both counters, zero-copy result regions, failing reads change nothing, Close, readCopy, GetBytes, Bytes, Until, thin contracts of WriteBuffer/Append/WriteDirect (safety, counters, cursors, frames), for all sizes/capacities/chain shapes. Assumed: allocator contracts (malloc/free/dirtmake), sync.Pool freshness, int/int64 mathematical, sequential use per buffer.",
+  nd=["byte contents of copying reads beyond 'copied from the region at the stream position' (memory is modelled per region, not per history)", "the representation invariant of the receiver after Append/WriteBuffer/WriteDirect and hence reads, Flush and further writes on an appended-to or split buffer (the three functions carry thin contracts: memory safety, counters, cursors, flags, frames; between Append and Flush the donor's readable bytes lie behind the flush cursor, and WriteDirect leaves two nodes looking into one block - both outside wf)", "concurrent reader/poller use of one buffer (sequential contracts; the connection layer's split discipline is assumed)"]),
  'C02': dict(
   text="Deductive proof that zero-copy results (Next/Peek/ReadBinary/GetBytes/Malloc regions) are regions of nodes that stay owned and unrecycled until Release/Close of their buffer; Refer takes exactly one reference on the root block.",
   note="Proved for the methods under contract: result regions lie inside live nodes, nodes with exposed regions are flagged read-only, Release recycles only consumed nodes, peek-cache validity, Refer's refcount rule, Slice (parent side: exact consumption, one counted reference per view, exposed nodes flagged, implicit Release). Assumed: as C01.",
@@ -14,10 +14,10 @@ CLAIMS = {
  'C03': dict(
   text="Deductive proof of the pool discipline: every free() is of a block the buffer owns in state 'handed out', at most once (ghost pool state machine 0/1/2), and caller memory (ghost pool state 0) is never freed or written.",
   note="Proved: malloc/free pairing on Release, Close, closeBuffer, growth, readBinary's private copies never enter caches; Refer/node.Release refcount balance per call. Assumed: mcache contract (a block is either in the pool or handed out once).",
-  nd=["WriteDirect/Append ownership transfer (not under contract)", "global balance of refcounts across arbitrary Slice trees (per-call contracts only)"]),
+  nd=["ownership after WriteDirect across later operations (WriteDirect itself is verified: caller memory is wrapped unmanaged, the block of the split node passes to exactly one new managed node, nothing is freed; WriteBuffer/Append are verified: every node.Release of both loops meets its precondition and only donor nodes outside read..write are recycled)", "global balance of refcounts across arbitrary Slice trees (per-call contracts only)"]),
  'C04': dict(
   text="Deductive proof that the connection's poller callbacks (inputs/inputAck/outputs/outputAck/flush/sendmsg accounting) move the buffer positions by exactly the byte counts the kernel reported.",
-  note="Proved: inputAck(n) publishes exactly n booked bytes, outputAck(n) consumes exactly n flushed bytes, ioread/iosend preconditions, Flush/flush accounting with short writes. Assumed: kernel contracts of readv/sendmsg (trusted raw syscalls), sequential poller per connection (token).",
+  note="Proved: iovecs builds one entry per non-empty chunk, in order, inside the array, describing at most MaxInt32 bytes and cutting only the last entry; resetIovecs clears the vector; inputAck(n) publishes exactly n booked bytes, outputAck(n) consumes exactly n flushed bytes, ioread/iosend preconditions, Flush/flush accounting with short writes. Assumed: kernel contracts of readv/sendmsg (trusted raw syscalls), sequential poller per connection (token).",
   nd=["byte values on the wire (kernel)", "ordering between two connections"]),
  'C05': dict(
   text="Deductive proof with linear thread-local tokens that teardown runs once: the closing word is written once (non-zero, never back), close callbacks run only under the processing token taken exactly once, buffers and slot are released once, on normal and panic paths.",
@@ -46,18 +46,18 @@ CLAIMS = {
  'C11': dict(
   text="Deductive proof of the handler's per-event protocol: every ioread result is acknowledged with exactly that count before anything else, same for iosend/OutputAck; hang-up is queued only after readall when readable and only if nothing was read, at most once per event and after detach; the close message closes both descriptors once and ends Wait; Trigger writes iff the flag was clear.",
   note="Proved: pattern obligations with ghost flags over all flag combinations (IN/OUT/HUP/RDHUP/ERR are symbolic), token released exactly once per event, appendHup captures OnHup at dispatch time and detaches before done(), Wait/reset sizes, openDefaultPoll all-or-nothing. Assumed: kernel contracts (epoll_wait/ctl, readv, sendmsg, eventfd), callbacks leave poller-private state alone (checked for netpoll's own code by the ownership scan).",
-  nd=["what the kernel reports for a given peer behaviour", "no callbacks after detach across batches (needs kernel EPOLL_CTL_DEL semantics)", "lost wake-up window between eventfd read and trigger reset"]),
+  nd=["what the kernel reports for a given peer behaviour", "no callbacks after detach across batches (needs kernel EPOLL_CTL_DEL semantics)", "lost wake-up between two goroutines beyond the path-local pattern (the wake-up flag is cleared only after the wake-up descriptor was drained in the same iteration: proved)"]),
  'C12': dict(
   text="Deductive proof, on closed-state contract variants of the real function bodies, that every Reader call on a locally closed quiescent connection returns ErrConnClosed (or nil for n <= 0), never blocks and never panics; Writer calls are guarded by IsActive; exception.Is matches ErrEOF with ErrConnClosed; Close is idempotent (token).",
-  note="Proved: LinkBuffer methods on a closed buffer (no panic, error iff n > 0), connection Next/Peek/Skip/ReadString/ReadBinary/ReadByte/Slice/Until/Release closed variants, waitRead closed variant incl. expired deadline, writer API guards. Assumed: quiescence (no concurrent close while the call runs).",
+  note="Proved: LinkBuffer methods on a closed buffer (no panic, error iff n > 0), connection Next/Peek/Skip/ReadString/ReadBinary/ReadByte/Slice/Until/Release closed variants, waitRead closed variant incl. expired deadline, writer API guards. Pattern: onClose wakes a blocked reader and a blocked flusher before it waits for them in closeCallback (a Close never deadlocks with a parked Flush). Assumed: quiescence (no concurrent close while the call runs).",
   nd=["the Reader methods on the still-open buffer after a peer close (waitRead's peer-closed variant is proved: buffered bytes are granted, then ErrEOF)", "a close racing with an in-flight Reader call (C19)"]),
  'C13': dict(
   text="Deductive proof of ordering/pattern obligations of the server: onAccept registers the untrack callback before storing and stores before starting callbacks, and does neither for a connection that died in init; Shutdown detaches and closes the listener before sweeping, closes idle and counts busy connections, returns nil only right after a sweep; the EMFILE retry goroutine exits only through re-registering.",
-  note="Proved: ghost-flag ordering in onAccept/Close/Close$1/OnRead/OnRead$1. Assumed: sync.Map contract, Listener.Accept returns netpoll Conns, global invariants of the callback list and poller pool at entry of onAccept.",
+  note="Proved: ghost-flag ordering in onAccept/Close/Close$1/OnRead/OnRead$1; isIdle implies the processing lock free and both buffers empty; the EMFILE retry goroutine pauses at most one second between accept attempts and leaves only by re-registering the listener. Assumed: sync.Map contract, Listener.Accept returns netpoll Conns, global invariants of the callback list and poller pool at entry of onAccept.",
   nd=["that the tracked set equals the set of open accepted connections (needs a model of sync.Map contents)", "Serve has returned / descriptors closed at Shutdown's nil", "deadline behaviour in wall-clock terms"]),
  'C14': dict(
   text="Deductive proof for the dial path: exactly one of connection/error (DialConnection: known finding), the deadline error reports Timeout(), WaitWrite deregisters before returning a context error, connect gives the wait slot back on every path, socket closes the descriptor on every dial error.",
-  note="Proved: mapErr, WaitWrite, connect (slot ownership frame), dial, socket (descriptor closed exactly once on error, non-blocking mode reaches connect), newPollDesc, the retry loop of sysDialer.dialTCP closes every abandoned socket, DialTCP/DialUnix/dialer.dialTCP/NewFDConnection return exactly one of connection/error. Assumed: context package contract, resolver results, Pick does not fail (C18 finding).",
+  note="Proved: mapErr, WaitWrite, connect (slot ownership frame), dial, socket (descriptor closed exactly once on error, non-blocking mode reaches connect), newPollDesc, the retry loop of sysDialer.dialTCP closes every abandoned socket, dialer.dialTCP returns the error of the attempt that observed the expired deadline, DialTCP/DialUnix/dialer.dialTCP/NewFDConnection return exactly one of connection/error. Assumed: context package contract, resolver results, Pick does not fail (C18 finding).",
   nd=["'within its timeout plus slack' (time)", "usable in both directions after success", "address conversion, address-family choice and self-connect detection helpers (trusted thin contracts)"]),
  'C15': dict(
   text="Deductive proof with a ghost descriptor table (fdopen/closecnt) that each function under contract closes only descriptors it owns, exactly once, on success and error paths: netFD.Close, listener.Close, parseFD/ConvertListener, sysSocket, socket, openDefaultPoll, handler's poller exit, the connection finalizer.",
@@ -73,7 +73,7 @@ CLAIMS = {
   nd=["flush errors of the connection", "fairness between shards"]),
  'C18': dict(
   text="Deductive proof of the poller pool: SetNumLoops/Run/Close keep len(polls) == numLoops with every poller running and distinct, a shrink closes exactly the dropped pollers, the balancer is rebuilt before the pool is published; Pick returns a running poller.",
-  note="Proved on Run/SetNumLoops/Close/Pick/load balancers. Known finding: Pick after a failed Run (three obligations). Assumed: openPoll contract (now proved separately for openDefaultPoll), goroutine start.",
+  note="Proved on Run/SetNumLoops/SetLoadBalance/Close/Pick/load balancers (a change of balancing mode keeps the balancer in sync with the running pollers). Known finding: Pick after a failed Run (three obligations). Assumed: openPoll contract (now proved separately for openDefaultPoll), goroutine start.",
   nd=["pollers actually making progress", "fault injection on openPoll beyond the recorded finding"]),
 }
 
